@@ -212,6 +212,92 @@ async fn scenario(ty: &str, transport: &str, bad: &[(usize, String)]) -> Out {
     o
 }
 
+/// More failed handshakes than the monitor channel holds while nobody reads it; the
+/// application then catches up. Failures that happen afterwards are reported again ("a
+/// handshake that fails is reported to an installed monitor"), and so are good clients.
+async fn monitor_overflow(ty: &str, transport: &str, burst: usize) -> Out {
+    let mut o = Out { viol: vec![], inconc: vec![], counts: vec![] };
+    let mut sock = Sock::new(ty, None);
+    let mut mon = sock.monitor();
+    let ep = match sock.bind(&rig::bind_endpoint(transport)).await {
+        Ok(e) => e,
+        Err(e) => {
+            o.inconc.push(format!("bind: {e}"));
+            return o;
+        }
+    };
+    let sig = |k: &str| format!("C20/{k}/{ty}");
+    // failing handshakes: a few junk bytes, then an orderly end
+    for k in 0..burst {
+        match Raw::connect(&ep).await {
+            Ok(mut raw) => {
+                let _ = raw.write_all(b"GET / HTTP/1.0\r\n\r\n").await;
+                let _ = raw.shutdown_write().await;
+                // let the listener take them as they come: keep at most a handful open
+                if k % 16 == 15 {
+                    tokio::time::sleep(Duration::from_millis(2)).await;
+                }
+            }
+            Err(e) => {
+                o.viol.push((sig("listener-stopped-accepting"), format!("connect #{k} of a burst of failing handshakes: {e}")));
+                return o;
+            }
+        }
+    }
+    tokio::time::sleep(Duration::from_millis(300)).await;
+    // the application catches up with whatever was kept for it
+    let mut drained = 0u64;
+    loop {
+        match tokio::time::timeout(Duration::from_millis(100), mon.next()).await {
+            Ok(Some(_)) => drained += 1,
+            Ok(None) => {
+                o.viol.push((
+                    sig("monitor-stream-ended-while-the-socket-is-alive"),
+                    format!("{burst} handshakes failed while the monitor was not being read; after {drained} events the monitor stream ended although the socket is alive"),
+                ));
+                return o;
+            }
+            Err(_) => break,
+        }
+    }
+    o.counts.push(("monitor_events_drained_after_a_burst".into(), drained));
+    // one more failure and one good client: both are reported
+    if let Ok(mut raw) = Raw::connect(&ep).await {
+        let _ = raw.write_all(b"junk junk junk").await;
+        let _ = raw.shutdown_write().await;
+    }
+    let mut seq = 0u32;
+    let good = good_client(&mut sock, &ep, ty, "good-after-burst", &mut seq).await;
+    let (mut accepted, mut failed) = (0, 0);
+    let deadline = std::time::Instant::now() + WAIT;
+    while (accepted < 1 || failed < 1) && std::time::Instant::now() < deadline {
+        match tokio::time::timeout(Duration::from_millis(50), mon.next()).await {
+            Ok(Some(SocketEvent::Accepted(..))) => accepted += 1,
+            Ok(Some(SocketEvent::AcceptFailed(_))) => failed += 1,
+            Ok(Some(_)) => {}
+            Ok(None) => break,
+            Err(_) => {}
+        }
+    }
+    if good.is_err() || accepted < 1 || failed < 1 {
+        if rig::canary_ok().await {
+            o.viol.push((
+                sig("failed-handshake-not-reported"),
+                format!(
+                    "after a burst of {burst} failed handshakes that overflowed the unread monitor ({drained} events were kept) and after the application caught up: one more failing and one good client connected (good client: {:?}); the monitor reported {failed} failures and {accepted} accepted peers",
+                    good.as_ref().map(|_| ()).map_err(|e| e.clone())
+                ),
+            ));
+        } else {
+            o.inconc.push("monitor wait expired while the canary was slow".into());
+        }
+    } else {
+        o.counts.push(("failures_reported_after_a_monitor_overflow".into(), 1));
+    }
+    let _ = tokio::time::timeout(WAIT, sock.close()).await;
+    o
+}
+
 impl Prop for C20 {
     fn id(&self) -> &'static str {
         "C20"
@@ -220,6 +306,9 @@ impl Prop for C20 {
     fn cases(&self, tier: Tier, seed: u64) -> Vec<Value> {
         let n = rc::handshake("REQ", Some(b"bad-client")).len() + 4; // longest peer type name is close enough; clamped later
         let mut v = Vec::new();
+        for (ty, transport) in [("REP", "tcp4"), ("PULL", "ipc"), ("XPUB", "tcp4")] {
+            v.push(json!({"kind": "monitor_overflow", "ty": ty, "transport": transport, "burst": 1300}));
+        }
         for ty in TYPES {
             for transport in ["tcp4", "ipc"] {
                 // so many silent clients that the listener cannot even accept for a while
@@ -265,6 +354,21 @@ impl Prop for C20 {
     }
 
     fn run(&self, case: &Value, ctx: &mut Ctx) {
+        if s(case, "kind") == "monitor_overflow" {
+            ctx.eval(hash_str(&case.to_string()), true);
+            ctx.sample("monitor_overflow", || case.clone());
+            let (o, _) = rig::run(2, monitor_overflow(s(case, "ty"), s(case, "transport"), u(case, "burst") as usize));
+            for (k, n) in o.counts {
+                ctx.add(&k, n);
+            }
+            for i in o.inconc {
+                ctx.inconclusive(format!("C20 monitor overflow: {i}"));
+            }
+            for (sig, msg) in o.viol {
+                ctx.violation_with(&sig, msg, case.clone());
+            }
+            return;
+        }
         if s(case, "kind") == "accept_errors" {
             super::c18::accept_fail_case("C20", ctx, case);
             return;
@@ -316,6 +420,8 @@ impl Prop for C20 {
             ("accept_failures_reported", 200),
             ("transport/ipc", 40),
             ("accept_error_episodes", 10),
+            ("failures_reported_after_a_monitor_overflow", 2),
+            ("monitor_events_drained_after_a_burst", 2000),
             ("max_simultaneous_bad_clients", 40),
         ]
     }
